@@ -1,6 +1,6 @@
 // leaf_c19.cpp — C19 observation driver over the real tao::pegtl::memory_input.
 //
-// stdin, one case per line:   <eol> <lazy 0|1> <init byte> <init line> <init column> <hex input | ->
+// stdin, one case per line:   <eol> <lazy 0|1, +2: the input is obtained from a parse-tree node (as_memory_input)> <init byte> <init line> <init column> <hex input | ->
 // stdout, one line per case: space-separated records  M:i:off:byte:line:col:at:bol:eol:lb:ll
 //   M = B  position() after in.bump( i )            (odd i: i single in.bump() calls)
 //       Y  position() after parse< bytes< i > >( in ), i <= 12
@@ -23,6 +23,7 @@
 #include <vector>
 
 #include <tao/pegtl.hpp>
+#include <tao/pegtl/contrib/parse_tree.hpp>
 
 namespace pegtl = tao::pegtl;
 
@@ -33,6 +34,7 @@ struct Cfg
    const char* data;
    std::size_t size;
    std::size_t ib, il, ic;
+   bool via_node = false;   // the input is the one a parse-tree node over [ data, data + size ) hands out (basic_node::as_memory_input)
 };
 
 static long long off_of( const char* p, const char* data )
@@ -72,6 +74,14 @@ template< pegtl::tracking_mode TM, typename Eol >
 static std::unique_ptr< typename Input< TM, Eol >::type > make( const Cfg& c )
 {
    using in_t = typename Input< TM, Eol >::type;
+   if( c.via_node ) {
+      // a node as parse_tree::parse leaves it: begin / end iterators with the counters of the position where its rule started
+      pegtl::parse_tree::node nd;
+      nd.source = "c19";
+      nd.m_begin = pegtl::internal::inputerator( c.data, c.ib, c.il, c.ic );
+      nd.m_end = pegtl::internal::inputerator( c.data + c.size, c.ib + c.size, c.il, c.ic );
+      return std::unique_ptr< in_t >( new in_t( nd.template as_memory_input< TM, Eol >() ) );
+   }
    if( ( c.ib == 0 ) && ( c.il == 1 ) && ( c.ic == 1 ) ) {
       return std::make_unique< in_t >( c.data, c.size, "c19" );
    }
@@ -189,13 +199,13 @@ int main()
       for( std::size_t i = 0; i < size; ++i ) {
          buf[ i ] = static_cast< char >( hexval( hex[ 2 * i ] ) * 16 + hexval( hex[ 2 * i + 1 ] ) );
       }
-      const Cfg c{ buf.get(), size, ib, il, ic };
+      const Cfg c{ buf.get(), size, ib, il, ic, lazy >= 2 };   // lazy: bit 0 = tracking mode, bit 1 = through a parse-tree node
       std::string out;
-      if( eol == "lf" ) out = run_tm< pegtl::eol::lf >( lazy != 0, c );
-      else if( eol == "cr" ) out = run_tm< pegtl::eol::cr >( lazy != 0, c );
-      else if( eol == "crlf" ) out = run_tm< pegtl::eol::crlf >( lazy != 0, c );
-      else if( eol == "lf_crlf" ) out = run_tm< pegtl::eol::lf_crlf >( lazy != 0, c );
-      else if( eol == "cr_crlf" ) out = run_tm< pegtl::eol::cr_crlf >( lazy != 0, c );
+      if( eol == "lf" ) out = run_tm< pegtl::eol::lf >( ( lazy & 1 ) != 0, c );
+      else if( eol == "cr" ) out = run_tm< pegtl::eol::cr >( ( lazy & 1 ) != 0, c );
+      else if( eol == "crlf" ) out = run_tm< pegtl::eol::crlf >( ( lazy & 1 ) != 0, c );
+      else if( eol == "lf_crlf" ) out = run_tm< pegtl::eol::lf_crlf >( ( lazy & 1 ) != 0, c );
+      else if( eol == "cr_crlf" ) out = run_tm< pegtl::eol::cr_crlf >( ( lazy & 1 ) != 0, c );
       else out = "BAD " + line;
       std::cout << out << '\n';
    }
